@@ -1409,8 +1409,10 @@ def run(chk, replay=None):
                        "handle_event) == real EPollPoller/PollPoller/Channel after every op (index_, channels_, pollfds_, kernel interest list from "
                        "/proc, events_ size, active lists, callbacks) and == one real EventLoop::loop() iteration with scripted callbacks on LOOP",
                        not corr_bad)
-    chk.add_obligation("oracle: exactly the ready subscribed channels are reported and called (snapshot semantics inside a batch, tie guard), both "
-                       "back-ends the same, bounded epoll growth, loop blocks when idle (on the implementation's own outputs)", not oracle_bad)
+    chk.add_obligation("oracle: exactly the ready subscribed channels are reported and called (inside a LOOP the observed callback sequence is "
+                       "walked against the snapshot: entitled callbacks required, stale ones = recorded finding stale-dispatch-within-batch when "
+                       "listed, anything not reported by this iteration's poll a violation; tie guard), both back-ends the same, bounded epoll "
+                       "growth, loop blocks when idle (on the implementation's own outputs)", not oracle_bad)
     chk.add_obligation("cases marked 'plain' replayed on a non-ASan build of the same driver (allocator address reuse visible): property oracle",
                        not [b for b in plain_bad if not (b[3] and all(k in known for k in b[3]))])
     chk.add_obligation("generated facts: PollPoller_remove_resets_index / EPollPoller_add_skips_empty_interest / PollPoller_new_entry_negates_empty / "
